@@ -18,6 +18,8 @@ type c18Case struct {
 	Pts    []exact.P `json:"pts"`
 	Closed bool      `json:"closed"` // closed ring (Poly exterior) or open series (Line)
 	Enc    adapt.Enc `json:"enc"`
+	// NegZero: bit i%64 set = zero ordinates of position i are written as -0
+	NegZero uint64 `json:"negzero,omitempty"`
 }
 
 // convexOracle: no two non-zero turns of opposite sign along the cyclic sequence
@@ -49,8 +51,25 @@ func convexOracle(pts []exact.P) bool {
 	return !(pos && neg)
 }
 
-func c18Series(c c18Case) geometry.Series {
+// c18Pts renders the lattice points; where the mask says so a zero ordinate is written as -0, which is the
+// same number: a closing vertex (-0,0) repeats a first vertex (0,0).
+func c18Pts(c c18Case) []geometry.Point {
 	pts := adapt.Pts(c.Pts, c.Enc.Scale)
+	for i := range pts {
+		if c.NegZero>>(uint(i)%64)&1 == 1 {
+			if pts[i].X == 0 {
+				pts[i].X = math.Copysign(0, -1)
+			}
+			if pts[i].Y == 0 {
+				pts[i].Y = math.Copysign(0, -1)
+			}
+		}
+	}
+	return pts
+}
+
+func c18Series(c c18Case) geometry.Series {
+	pts := c18Pts(c)
 	defer adapt.Scribble(pts) // the series keeps its own copy of the caller's slice
 	if c.Closed {
 		return geometry.NewPoly(pts, nil, c.Enc.Opts()).Exterior
@@ -68,7 +87,7 @@ func c18Check(c c18Case) fw.Outcome {
 	}
 	if c.Closed {
 		// the polygon-level accessor must report its exterior's flag
-		if p := geometry.NewPoly(adapt.Pts(c.Pts, c.Enc.Scale), nil, c.Enc.Opts()); p.Clockwise() != s.Clockwise() {
+		if p := geometry.NewPoly(c18Pts(c), nil, c.Enc.Opts()); p.Clockwise() != s.Clockwise() {
 			return fw.Failf(o.Label, "Poly.Clockwise() = %v but its exterior ring %v reports %v", p.Clockwise(), c.Pts, s.Clockwise())
 		}
 	}
@@ -80,9 +99,9 @@ func c18Check(c c18Case) fw.Outcome {
 	dx, dy := adapt.F(3, c.Enc.Scale), adapt.F(-5, c.Enc.Scale)
 	var ms geometry.Series
 	if c.Closed {
-		ms = geometry.NewPoly(adapt.Pts(c.Pts, c.Enc.Scale), nil, c.Enc.Opts()).Move(dx, dy).Exterior
+		ms = geometry.NewPoly(c18Pts(c), nil, c.Enc.Opts()).Move(dx, dy).Exterior
 	} else {
-		ms = geometry.NewLine(adapt.Pts(c.Pts, c.Enc.Scale), c.Enc.Opts()).Move(dx, dy)
+		ms = geometry.NewLine(c18Pts(c), c.Enc.Opts()).Move(dx, dy)
 	}
 	if om := c18Verify(moved, ms); om.Fail != "" {
 		om.Fail = "after Move(3,-5 lattice units) of the series built from " + fmt.Sprint(c.Pts) + ": " + om.Fail
@@ -94,9 +113,9 @@ func c18Check(c c18Case) fw.Outcome {
 		big := adapt.F(1<<53, c.Enc.Scale)
 		var fs geometry.Series
 		if c.Closed {
-			fs = geometry.NewPoly(adapt.Pts(c.Pts, c.Enc.Scale), nil, c.Enc.Opts()).Move(big, big).Exterior
+			fs = geometry.NewPoly(c18Pts(c), nil, c.Enc.Opts()).Move(big, big).Exterior
 		} else {
-			fs = geometry.NewLine(adapt.Pts(c.Pts, c.Enc.Scale), c.Enc.Opts()).Move(big, big)
+			fs = geometry.NewLine(c18Pts(c), c.Enc.Opts()).Move(big, big)
 		}
 		far := c
 		far.Pts = make([]exact.P, 0, len(c.Pts))
@@ -235,7 +254,7 @@ func c18Shrink(c c18Case) []c18Case {
 			break
 		}
 		q := append(append([]exact.P{}, c.Pts[:i]...), c.Pts[i+1:]...)
-		out = append(out, c18Case{Pts: q, Closed: c.Closed, Enc: c.Enc})
+		out = append(out, c18Case{Pts: q, Closed: c.Closed, Enc: c.Enc, NegZero: c.NegZero})
 	}
 	if c.Enc.Scale != 0 || c.Enc.IndexKind != 0 {
 		out = append(out, c18Case{Pts: c.Pts, Closed: c.Closed})
@@ -245,7 +264,7 @@ func c18Shrink(c c18Case) []c18Case {
 			if h != p {
 				q := append([]exact.P{}, c.Pts...)
 				q[i] = h
-				out = append(out, c18Case{Pts: q, Closed: c.Closed, Enc: c.Enc})
+				out = append(out, c18Case{Pts: q, Closed: c.Closed, Enc: c.Enc, NegZero: c.NegZero})
 			}
 		}
 	}
@@ -311,7 +330,11 @@ func c18Gen(t *rapid.T) c18Case {
 			pts[i] = exact.P{X: pts[i].X + tx, Y: pts[i].Y + ty}
 		}
 	}
-	return c18Case{Pts: pts, Closed: closed, Enc: enc}
+	c := c18Case{Pts: pts, Closed: closed, Enc: enc}
+	if rapid.IntRange(0, 3).Draw(t, "negzero_m") == 0 {
+		c.NegZero = rapid.Uint64().Draw(t, "negzero")
+	}
+	return c
 }
 
 func c18Enum(tier string, yield func(c18Case) bool) {
@@ -340,6 +363,10 @@ func c18Enum(tier string, yield func(c18Case) bool) {
 				}
 				if l >= 1 {
 					cl := append(append([]exact.P{}, pts...), pts[0])
+					// the closing vertex written with -0 where the first has 0: still the same point
+					if (pts[0].X == 0 || pts[0].Y == 0) && !yield(c18Case{Pts: cl, Closed: true, NegZero: 1 << (uint(l) % 64)}) {
+						return
+					}
 					if !yield(c18Case{Pts: cl, Closed: true}) {
 						return
 					}
